@@ -4,6 +4,7 @@ package main
 
 import (
 	"fmt"
+	"math/big"
 	"go/types"
 	"strconv"
 	"strings"
@@ -214,7 +215,7 @@ func (c *Ctx) atom(a string) Value {
 		if err != nil {
 			c.fail("bad literal %s", a)
 		}
-		return BVLit(n, 4*(len(a)-2))
+		return bvlit(new(big.Int).SetUint64(n), 4*(len(a)-2))
 	case strings.HasPrefix(a, "#b"):
 		n, err := strconv.ParseUint(a[2:], 2, 64)
 		if err != nil {
@@ -320,7 +321,7 @@ func (c *Ctx) eval(sx *SX) Value {
 		var decl []string
 		for _, b := range args[0].List {
 			name, srt := b.List[0].Atom, b.List[1].String()
-			nb[name] = Raw(name, smtSortName(srt))
+			nb[name] = intern(&Term{Op: "bvar", Name: name, Sort: smtSortName(srt)})
 			decl = append(decl, "("+name+" "+srt+")")
 		}
 		saved := c.bound
@@ -528,11 +529,11 @@ func applyOp(head string, hsx *SX, ts []*Term) *Term {
 		}
 		return App(">=", SBool, ts...)
 	case "bvand", "bvor", "bvxor", "bvadd", "bvsub", "bvshl", "bvlshr", "bvmul":
-		if len(ts) == 2 && (ts[0].Sort == SBV8 || ts[0].Sort == SBV64) && ts[0].Sort == ts[1].Sort {
+		if len(ts) == 2 && isBVSort(ts[0].Sort) && ts[0].Sort == ts[1].Sort {
 			return BVBin(head, ts[0], ts[1])
 		}
 	case "bvult", "bvule", "bvslt", "bvsle":
-		if len(ts) == 2 && (ts[0].Sort == SBV8 || ts[0].Sort == SBV64) && ts[0].Sort == ts[1].Sort {
+		if len(ts) == 2 && isBVSort(ts[0].Sort) && ts[0].Sort == ts[1].Sort {
 			return BVCmp(head, ts[0], ts[1])
 		}
 		return App(head, SBool, ts...)
